@@ -101,6 +101,14 @@ def make_batch(spec):
 
 def batch_spec():
     from hypothesis import strategies as st
+    # 'square' batches: as many lines as a line has encoder frames (width / 4), e.g. eight lines of 32 px
+    square = st.sampled_from([(4, 16), (8, 32), (12, 48), (3, 12), (6, 24), (5, 20)]).flatmap(
+        lambda nw: st.fixed_dictionaries(dict(seed=st.integers(0, 2 ** 31 - 1), n=st.just(nw[0]), w=st.just(nw[1]), binary=st.just(False))))
+    return st.integers(0, 9).flatmap(lambda k: square if k == 0 else _ordinary_batch_spec())
+
+
+def _ordinary_batch_spec():
+    from hypothesis import strategies as st
     return st.fixed_dictionaries(dict(seed=st.integers(0, 2 ** 31 - 1), n=st.integers(0, 15).flatmap(lambda k: st.sampled_from([6, 9]) if k == 0 else st.integers(1, 4)),
                                       w=st.sampled_from([32, 48, 64, 96, 160, 32, 48, 64, 96, 160, 160, 400]),
                                       binary=st.sampled_from([False, False, True])))
@@ -305,25 +313,33 @@ def body_run_ocr(ctx, case):
     cfg, b = case
     eng = make_engine(build_model(cfg, max_seq_len=320), cfg)      # run_ocr pads to 1088 px: 272 frames, cap 272 steps
     X = make_batch(b).transpose(0, 2, 3, 1)          # N, H, W, 3 as process_lines hands it over
-    with contextlib.redirect_stdout(io.StringIO()):
-        res = ctx.must("run_ocr_raises", eng.run_ocr, X)
-    decoded, logits = res
-    for s in decoded:
-        ctx.check("​" not in s and all(ch in eng.characters[:cfg["classes"]] for ch in s), "special_character_in_text",
-                  lambda: "%r; case=%r" % (s, case))
-    ctx.check(len(decoded) == b["n"], "run_ocr_result_count", lambda: "case=%r" % (case,))
-    # the scores the engine's own entry point hands on are the per-step scores of the recomputed (uncached) decoding of
-    # the same padded input, and the strings are the decoding of their arg max up to the boundary symbol
-    Xp = np.transpose(X, (0, 3, 1, 2))
-    pad = np.zeros(Xp.shape[:3] + (1088,), dtype=Xp.dtype)
-    s0 = (1088 - Xp.shape[3]) // 2
-    pad[:, :, :, s0:s0 + Xp.shape[3]] = Xp
-    outs_u, logits_u = transcribe(make_engine(eng.net, cfg), pad, cached=False)
-    ctx.check(close(logits, logits_u, 1e-4), "run_ocr_scores_differ_from_recomputed_scores",
-              lambda: "shapes %r %r max difference %r; case=%r" % (np.shape(logits), logits_u.shape,
-                                                                   float(np.abs(np.asarray(logits) - logits_u).max()) if np.shape(logits) == logits_u.shape else None, case))
-    want = ["".join(eng.characters[c] for c in o if c not in (eng.sentence_boundary_ind, eng.ignore_ind)) for o in outs_u]
-    ctx.check(list(decoded) == want, "run_ocr_text_differs_from_recomputed_decoding", lambda: "%r vs %r; case=%r" % (decoded, want, case))
+    def one_call(X, what):
+        with contextlib.redirect_stdout(io.StringIO()):
+            res = ctx.must("run_ocr_raises", eng.run_ocr, X.copy())
+        decoded, logits = res
+        for s in decoded:
+            ctx.check("\u200b" not in s and all(ch in eng.characters[:cfg["classes"]] for ch in s), "special_character_in_text",
+                      lambda: "%s: %r; case=%r" % (what, s, case))
+        ctx.check(len(decoded) == b["n"], "run_ocr_result_count", lambda: "case=%r" % (case,))
+        # the scores the engine's own entry point hands on are the per-step scores of the recomputed (uncached) decoding of
+        # the same padded input, and the strings are the decoding of their arg max up to the boundary symbol
+        Xp = np.transpose(X, (0, 3, 1, 2))
+        pad = np.zeros(Xp.shape[:3] + (1088,), dtype=Xp.dtype)
+        s0 = (1088 - Xp.shape[3]) // 2
+        pad[:, :, :, s0:s0 + Xp.shape[3]] = Xp
+        outs_u, logits_u = transcribe(make_engine(eng.net, cfg), pad, cached=False)
+        ctx.check(close(logits, logits_u, 1e-4), "run_ocr_scores_differ_from_recomputed_scores",
+                  lambda: "%s: shapes %r %r max difference %r; case=%r" % (what, np.shape(logits), logits_u.shape,
+                                                                           float(np.abs(np.asarray(logits) - logits_u).max()) if np.shape(logits) == logits_u.shape else None, case))
+        want = ["".join(eng.characters[c] for c in o if c not in (eng.sentence_boundary_ind, eng.ignore_ind)) for o in outs_u]
+        ctx.check(list(decoded) == want, "run_ocr_text_differs_from_recomputed_decoding", lambda: "%s: %r vs %r; case=%r" % (what, decoded, want, case))
+        return decoded
+    decoded = one_call(X, "first call")
+    # the same engine object is used for batch after batch: a narrower batch of as many lines right after a wider one
+    if X.shape[2] >= 48:
+        cut = max(16, (X.shape[2] // 3) // 4 * 4)
+        one_call(np.ascontiguousarray(X[:, :, :cut]), "narrower batch of the same size after a wider one")
+        ctx.event("narrower_batch_after_wider")
     if len(set(decoded)) >= 2:
         ctx.nontrivial(repr(case))
 
